@@ -28,6 +28,7 @@ def main():
     src = pathlib.Path(sys.argv[1])
     tier = "quick"
     checks = None
+    tag = ""
     args = sys.argv[2:]
     while args:
         a = args.pop(0)
@@ -35,6 +36,8 @@ def main():
             tier = args.pop(0)
         elif a == "--checks":
             checks = args.pop(0).split(",")
+        elif a == "--tag":
+            tag = args.pop(0) + "-"
     meta = json.loads((src / "meta.json").read_text())
     prop = meta.get("property") or src.parent.name
     n = src.name
@@ -72,10 +75,10 @@ def main():
     finally:
         sh(["git", "-C", "/repo", "worktree", "remove", "--force", str(wt)])
         shutil.rmtree(wt, ignore_errors=True)
-    dst = VERIF / "seeded" / f"{prop}-{n}"
+    dst = VERIF / "seeded" / f"{prop}-{tag}{n}"
     confirmed = bool(res.get("patch_applies") and res.get("tests_still_pass") and res.get("demo_fails_with_change") and res.get("demo_passes_without_change"))
     res["confirmed"] = confirmed
-    print(json.dumps({"seed": f"{prop}-{n}", **{k: v for k, v in res.items() if k != "demo_output_with_change"}}, indent=1))
+    print(json.dumps({"seed": f"{prop}-{tag}{n}", **{k: v for k, v in res.items() if k != "demo_output_with_change"}}, indent=1))
     if confirmed:
         dst.mkdir(parents=True, exist_ok=True)
         shutil.copy(src / "patch.diff", dst / "patch.diff")
